@@ -3,6 +3,7 @@ package chainlab
 import (
 	"bytes"
 	"encoding/hex"
+	"errors"
 	"fmt"
 	"iter"
 	"sort"
@@ -23,7 +24,13 @@ type ShadowDB struct {
 	OnFlush func(durable map[string]map[string]string)
 	Flushes int
 	Puts    int
+	// StopAtFlush > 0: the StopAtFlush-th Flush panics with ErrInjectedStop
+	// before anything reaches the backend (a process stop before that commit).
+	StopAtFlush int
 }
+
+// ErrInjectedStop is the panic value of an injected stop.
+var ErrInjectedStop = errors.New("chainlab: injected stop before commit")
 
 // NewShadowDB wraps inner.
 func NewShadowDB(inner chain.DB) *ShadowDB { return &ShadowDB{Inner: inner, Model: ref.NewKV()} }
@@ -73,6 +80,9 @@ func (s *ShadowDB) CreateBucket(name []byte) (chain.DBBucket, error) {
 
 // Flush implements chain.DB.
 func (s *ShadowDB) Flush() error {
+	if s.StopAtFlush > 0 && s.Flushes+1 == s.StopAtFlush {
+		panic(ErrInjectedStop)
+	}
 	err := s.Inner.Flush()
 	if err == nil {
 		s.Model.Flush()
@@ -88,6 +98,48 @@ func (s *ShadowDB) Flush() error {
 func (s *ShadowDB) Cancel() {
 	s.Inner.Cancel()
 	s.Model.Cancel()
+}
+
+// DiffDurable cancels the backend's pending writes (what a stop before the
+// next commit leaves behind on a database that lives in the process's memory)
+// and compares everything the backend then serves with the durable image of
+// the model, i.e. with what was committed. A difference means committed data
+// was changed without a commit.
+func (s *ShadowDB) DiffDurable() string {
+	s.Inner.Cancel()
+	s.Model.Cancel()
+	names := make([]string, 0, len(s.Model.Durable))
+	for n := range s.Model.Durable {
+		names = append(names, n)
+	}
+	sort.Strings(names)
+	for _, n := range names {
+		b := s.Inner.Bucket([]byte(n))
+		if b == nil {
+			return fmt.Sprintf("bucket %q is gone", n)
+		}
+		want := s.Model.Durable[n]
+		seen := 0
+		for k, v := range b.Iter() {
+			w, ok := want[string(k)]
+			if !ok {
+				return fmt.Sprintf("bucket %q holds key %x that was never committed", n, k)
+			}
+			if w != string(v) {
+				return fmt.Sprintf("bucket %q key %x: backend serves %x, committed was %x", n, k, v, w)
+			}
+			seen++
+		}
+		if seen != len(want) {
+			return fmt.Sprintf("bucket %q serves %d keys, %d were committed", n, seen, len(want))
+		}
+		for k, w := range want {
+			if g := b.Get([]byte(k)); string(g) != w || (g == nil) {
+				return fmt.Sprintf("bucket %q key %x: Get serves %x, committed was %x", n, k, g, w)
+			}
+		}
+	}
+	return ""
 }
 
 // LoadImage fills a fresh MemDB with a durable image.
